@@ -98,6 +98,10 @@ func c09RunSub(timeout time.Duration, name string, args ...string) (line string,
 // c09SubIndent runs v1.Indent in a child.  status: "ok" (out/errS valid), "timeout", "crash".
 func c09SubIndent(src []byte, prefix, indent string, pre []byte) (out []byte, errS string, status string) {
 	line, st := c09RunSub(c09IndentTimeout, "c09-indent", hx(src), hx([]byte(prefix)), hx([]byte(indent)), hx(pre))
+	if st == "timeout" {
+		// a loaded machine can starve the child: retry once before calling it a hang
+		line, st = c09RunSub(c09IndentTimeout, "c09-indent", hx(src), hx([]byte(prefix)), hx([]byte(indent)), hx(pre))
+	}
 	if st != "ok" {
 		return nil, line, st
 	}
